@@ -98,7 +98,9 @@ func judgeC18(j *judgeCtx) {
 			if m := maxConc(c.Inv); c.Val+infl > m {
 				j.add("C18.a", c.Ret, "NumIdleWorkers() = %d plus %d executing exceeds the largest concurrency ever configured (%d)", c.Val, infl, m)
 			}
-			if st == lsR && c.Val < 1 && wd.cancelled == 0 {
+			if st == lsR && c.Val < 1 && infl == 0 && wd.cancelled == 0 {
+				// (a job still executing at the quiescent point - asleep on the simulated clock -
+				// legitimately occupies the only pool goroutine)
 				j.add("C18.b", c.Ret, "NumIdleWorkers() = %d on a running worker at rest: not even one idle worker is kept", c.Val)
 			}
 		case 31, 32, 33, 34:
